@@ -110,9 +110,9 @@ def r03_4(ctx):
     prog = ctx.prog
     f = prog.own_method("Ocp", "sys_simulator")
     sc = ctx.scope(f)
-    nn = Norm(None)
+    n = Norm(sc, no_expand=("ode", "alg", "p", "intg", "intg_out"))
     subs = [c for c in walk_no_nested(f.node) if is_call_to(c, "substitute")]
-    ok = len(subs) == 1 and len(subs[0].args) == 3 and ast.unparse(subs[0].args[1]) == "[self.t]" and nn.poly(subs[0].args[2].elts[0]) == expected("t0+tau*dt")
+    ok = len(subs) == 1 and len(subs[0].args) == 3 and ast.unparse(subs[0].args[1]) == "[self.t]" and isinstance(subs[0].args[2], ast.List) and n.poly(subs[0].args[2].elts[0]) == expected("t0+tau*dt")
     ctx.check(ok, "sys_simulator time substitution", detail="model time is not t0+tau*dt", expected="substitute([ode,alg],[self.t],[t0+tau*dt])", found="; ".join(ast.unparse(c) for c in subs), fi=f)
     stores = {}
     for st in walk_no_nested(f.node):
@@ -120,17 +120,19 @@ def r03_4(ctx):
             stores[st.targets[0].slice.value] = st.value
     want = {"x": "self.x", "z": "self.z", "t": "tau", "ode": "dt*ode", "alg": "alg", "p": "vertcat(self.u, t0, dt, p)"}
     for k, text in want.items():
-        got = nn.poly(stores[k]) if k in stores else None
+        got = n.poly(stores[k]) if k in stores else None
         ctx.check(got == expected(text), "sys_simulator dae['%s']" % k, detail="time rescaling of the simulator", expected=expected(text), found=got, fi=f, sample={"key": k, "value": str(got)})
     ic = [c for c in walk_no_nested(f.node) if isinstance(c, ast.Call) and ast.unparse(c.func) == "integrator"]
     ok = len(ic) >= 1 and len(ic[0].args) == 6 and [ast.unparse(a) for a in ic[0].args[3:5]] == ["0", "1"]
     ctx.check(ok, "sys_simulator integrates over the unit interval", detail="horizon", expected="integrator('intg', intg, dae, 0, 1, opts)", found="; ".join(ast.unparse(c)[:60] for c in ic), fi=f)
-    calls = [c for c in walk_no_nested(f.node) if isinstance(c, ast.Call) and isinstance(c.func, ast.Name) and c.func.id == "intg" and c.keywords]
+    calls = [c for c in walk_no_nested(f.node) if isinstance(c, ast.Call) and isinstance(c.func, ast.Name) and c.keywords and {"x0", "p"} <= {k.arg for k in c.keywords}]
     ok = len(calls) == 1
     if ok:
-        kw = {k.arg: ast.unparse(k.value) for k in calls[0].keywords}
-        ok = kw.get("x0") == "self.x" and kw.get("p") == "dae['p']"
-    ctx.check(ok, "sys_simulator call packs p as at definition", detail="p packing", expected="intg(x0=self.x, p=dae['p'], z0=...)", found="; ".join(ast.unparse(c) for c in calls), fi=f)
+        kw = {k.arg: k.value for k in calls[0].keywords}
+        pk = n.key(kw["p"])
+        same = "p" in stores and (pk == n.key(stores["p"]) or pk == "dae['p']")
+        ok = ast.unparse(kw["x0"]) == "self.x" and same
+    ctx.check(ok, "sys_simulator call packs p as at definition", detail="p packing", expected="intg(x0=self.x, p=<the vector stored in dae['p']>, z0=...)", found="; ".join(ast.unparse(c) for c in calls), fi=f)
     call, ins, outs, ni, no = AL.function_ctor(f)
     pairs = dict(zip(ni, [ast.unparse(i) for i in ins]))
     want = {"x": "self.x", "u": "self.u", "p": "p", "t0": "t0", "dt": "dt"}
